@@ -45,6 +45,10 @@ IssueVerdict(tr) ==
   ELSE IF tr.d0 # tr.d1 THEN "TreeNotModified"
   ELSE IF Len(tr.calls) >= 2 /\ tr.calls[1] # tr.calls[2] THEN "Deterministic"
   ELSE IF \E k \in 1..NI : ~InFile(iss[k]) THEN "RangeInsideFile"
+  (* the same text reached through another provenance (incremental re-parse after an earlier listing on the old  *)
+  (* tree, pickle round trip) must list the same issues: the result depends on the tree's text only             *)
+  ELSE IF \E p \in 1..Len(tr.prov) : tr.prov[p] # iss
+       THEN (IF tr.kind = "errors" THEN "IndependentOfEarlierCallsAndProvenance" ELSE "SameForEveryProvenance")
   ELSE IF tr.kind = "errors" THEN
        IF \E k \in 1..NI : iss[k].code \notin {901, 903} THEN "CodeIs901or903"
        ELSE IF \E k \in 1..NI : iss[k].mp # (IF iss[k].code = 901 THEN "SyntaxError" ELSE "IndentationError")
@@ -59,7 +63,6 @@ IssueVerdict(tr) ==
   ELSE \* pep8
        IF \E k \in 1..NI : iss[k].code < 1 \/ iss[k].ml = 0 THEN "NumericCodeAndMessage"
        ELSE IF Cardinality({<<iss[k].code, iss[k].s>> : k \in 1..NI}) # NI THEN "NoDuplicateCodePosition"
-       ELSE IF \E p \in 1..Len(tr.prov) : tr.prov[p] # iss THEN "SameForEveryProvenance"
        ELSE IF clean /\ (has292 # ~endsInBreak) /\ Len(inp) > 0 THEN "W292IffNoFinalLineBreak"
        ELSE "ok"
 
